@@ -143,25 +143,31 @@ def measure_checks(res, case, step, only):
     for name, pairs in meas.items():
         if only is not None and name != only:
             continue
-        for q, exp in pairs:
-            qf = rat(q)
-            try:
-                with np.errstate(all="ignore"):
-                    got = res.get_measurement(qf, name)
-            except Exception as exc:
-                probs.append((f"step{step}:measure", name, -1, f"raises {type(exc).__name__}", str(exc)[:80]))
-                break
-            if isinstance(got, np.ndarray):
-                probs.append((f"step{step}:measure", name, -1, "scalar query returned array", ""))
-                continue
-            e = rat(exp["v"]) if exp["k"] == "real" else cplx(exp["v"], case["bins"][0]["s2"])
-            if not (abs(got - e) <= REL * max(1.0, abs(e))):
-                probs.append((f"step{step}:measure", name, -1, f"value at f={qf}: {got!r}", f"expected {e!r}"))
-        qs = np.array([rat(q) for q, _ in pairs])
-        if qs.size:
-            got = res.get_measurement(qs, name)
-            if not (isinstance(got, np.ndarray) and got.shape == qs.shape):
-                probs.append((f"step{step}:measure", name, -1, "array query shape", repr(got)))
+        # build_result stores the same integers in K and navg: both columns must interpolate alike
+        for attr in ((name, "K") if name == "navg" else (name,)):
+            for q, exp in pairs:
+                qf = rat(q)
+                try:
+                    with np.errstate(all="ignore"):
+                        got = res.get_measurement(qf, attr)
+                except Exception as exc:
+                    probs.append((f"step{step}:measure", attr, -1, f"raises {type(exc).__name__}", str(exc)[:80]))
+                    break
+                if isinstance(got, np.ndarray):
+                    probs.append((f"step{step}:measure", attr, -1, "scalar query returned array", ""))
+                    continue
+                e = rat(exp["v"]) if exp["k"] == "real" else cplx(exp["v"], case["bins"][0]["s2"])
+                if not (abs(got - e) <= REL * max(1.0, abs(e))):
+                    probs.append((f"step{step}:measure", attr, -1, f"value at f={qf}: {got!r}", f"expected {e!r}"))
+            qs = np.array([rat(q) for q, _ in pairs])
+            if qs.size:
+                got = res.get_measurement(qs, attr)
+                if not (isinstance(got, np.ndarray) and got.shape == qs.shape):
+                    probs.append((f"step{step}:measure", attr, -1, "array query shape", repr(got)))
+                else:
+                    ex = np.array([rat(e["v"]) if e["k"] == "real" else cplx(e["v"], case["bins"][0]["s2"]) for _, e in pairs])
+                    if not np.all(np.abs(got - ex) <= REL * np.maximum(1.0, np.abs(ex))):
+                        probs.append((f"step{step}:measure", attr, -1, f"array query values {got!r}", f"expected {ex!r}"))
     return probs
 
 
